@@ -1,0 +1,15 @@
+//go:build verif
+
+package ibc
+
+// Contracts for the deductive checker in /verif (comment-only; compiled only with -tags verif). C10, IBC middleware.
+
+/*@
+// the boilerplate module forwards every callback to the underlying application: executed in place
+func (Module).OnRecvPacket
+    inline
+func (Module).OnAcknowledgementPacket
+    inline
+func (Module).OnTimeoutPacket
+    inline
+@*/
